@@ -186,7 +186,8 @@ def build(u):
     # ---- encode_vlq ---------------------------------------------------------------------------
     v = u.item("src/encoder.rs", "pub fn encode_vlq(")
     v.sig("encode_vlq", [
-        ("encode_vlq.requires", "contract", "requires (a >= b ==> a - b < 0x8000_0000) && (a < b ==> b - a < 0x7fff_ffff)"),
+        # the domain precondition belongs to the functional / alphabet views; in the C17 view encode_vlq is total
+        ("encode_vlq.requires", "contract", "requires (a >= b ==> a - b < 0x8000_0000) && (a < b ==> b - a < 0x7fff_ffff)", F + W),
         ("encode_vlq.len", "contract", "ensures final(out)@.len() > old(out)@.len(),"),
         ("encode_vlq.ensures", "contract", "  final(out)@ == old(out)@ + vlq_digits(zz(a as int, b as int)),", F),
         ("encode_vlq.wire", "contract", "  all_wire(old(out)@) ==> all_wire(final(out)@),", W + F),
@@ -203,6 +204,7 @@ def build(u):
                  "proof {\n"
                  "  if a >= b { let x = (a - b) as u32; assert(x < 0x8000_0000u32 ==> (x << 1) == 2 * x) by (bit_vector); }\n"
                  "  else { let x = (b - a) as u32; assert(x < 0x7fff_ffffu32 ==> (x << 1) == 2 * x) by (bit_vector); }\n"
+                 "  assert(forall|x: u32| #[trigger] (x << 1) <= 0xffff_fffeu32) by (bit_vector);\n"
                  "}")
     v.loop_body_start("encode_vlq", 1, "encode_vlq.hint.digit", "hint",
                       "let ghost num0 = num;\n"
@@ -230,11 +232,13 @@ def build(u):
     apply_loop_rules(f, "encode")
     f.sig("encode", [
         ("FullMappingsEncoder::encode.requires", "contract",
-         "requires es_in_dom(old(self).es()), m_in_dom(*mapping), old(self).es().line <= mapping.generated_line, all_wire(old(self).bytes())"),
+         "requires es_in_dom(old(self).es()), m_in_dom(*mapping), all_wire(old(self).bytes())", F + W),
+        ("FullMappingsEncoder::encode.sorted", "contract", "requires old(self).es().line <= mapping.generated_line"),
         ("FullMappingsEncoder::encode.ensures", "contract",
          "ensures final(self).es() == enc_state(old(self).es(), *mapping),\n"
          "  final(self).bytes() =~= old(self).bytes() + enc_bytes(old(self).es(), *mapping),", F),
-        ("FullMappingsEncoder::encode.dom", "contract", "ensures es_in_dom(final(self).es()), final(self).es().line == mapping.generated_line || final(self).es() == old(self).es(),"),
+        ("FullMappingsEncoder::encode.dom", "contract", "ensures es_in_dom(final(self).es()),", F + W),
+        ("FullMappingsEncoder::encode.line", "contract", "ensures final(self).es().line == mapping.generated_line || final(self).es() == old(self).es(),"),
         ("FullMappingsEncoder::encode.wire", "contract", "  all_wire(final(self).bytes()),", W + F),
     ])
     f.loop("encode", 1, [
@@ -289,11 +293,13 @@ def build(u):
     u.r3b_sites = r3_extend_literal(g, "encode") + r3_extend_literal(f, "encode")
     g.sig("encode", [
         ("LinesOnlyMappingsEncoder::encode.requires", "contract",
-         "requires ls_inv(old(self).ls()), m_in_dom(*mapping), old(self).ls().line <= mapping.generated_line, all_wire(old(self).bytes())"),
+         "requires ls_inv(old(self).ls()), m_in_dom(*mapping), all_wire(old(self).bytes())", F + W),
+        ("LinesOnlyMappingsEncoder::encode.sorted", "contract", "requires old(self).ls().line <= mapping.generated_line"),
         ("LinesOnlyMappingsEncoder::encode.ensures", "contract",
          "ensures final(self).ls() == lines_state(old(self).ls(), *mapping),\n"
          "  final(self).bytes() =~= old(self).bytes() + lines_bytes(old(self).ls(), *mapping),", F),
-        ("LinesOnlyMappingsEncoder::encode.dom", "contract", "ensures ls_inv(final(self).ls()), final(self).ls().line == mapping.generated_line || final(self).ls() == old(self).ls(),"),
+        ("LinesOnlyMappingsEncoder::encode.dom", "contract", "ensures ls_inv(final(self).ls()),", F + W),
+        ("LinesOnlyMappingsEncoder::encode.line", "contract", "ensures final(self).ls().line == mapping.generated_line || final(self).ls() == old(self).ls(),"),
         ("LinesOnlyMappingsEncoder::encode.wire", "contract", "  all_wire(final(self).bytes()),", W + F),
     ])
     g.loop("encode", 1, [
@@ -311,7 +317,7 @@ def build(u):
                  "proof {\n"
                  "  assert(b0 + Seq::<u8>::empty() =~= b0);\n"
                  "  lemma_lines_facts(l0, m);\n"
-                 "}")
+                 "}", tags=F + W)
     g.sig("drain", [
         ("LinesOnlyMappingsEncoder::drain.requires", "contract", "requires all_wire(old(self).bytes())"),
         ("LinesOnlyMappingsEncoder::drain.ensures", "contract", "ensures r@ =~= bytes_as_chars(old(self).bytes())", F + W),
